@@ -245,12 +245,20 @@ def judge_single(call, chk, probe=None):
 
     if call.get('scripted'):
         # actions that only write finite numbers can never be the source of an exception
+        ambient = call.get('np_err', 'default')
         for r in evals[: E['npass']]:
-            if r.get('act') in ('delta', 'set', 'half', 'npunder', 'noop'):
+            if r.get('act') in ('delta', 'set', 'half', 'noop') or (r.get('act') == 'npunder' and ambient in ('default', 'ignore')):
                 chk('pass/finite-arithmetic-raised', r['exc'] is None, {'act': r.get('act'), 'exc': r['exc'], 'errors': opts['errors'], 'catch_first_error': opts['catch_first_error']})
         # warning-raising statements: turned into errors exactly under errors='raise' with catch_first_error
         strict = opts['errors'] == 'raise' and bool(opts['catch_first_error'])
         for r in evals[: E['npass']]:
+            if r.get('act') == 'npwarn' and ambient != 'default' and ambient != 'warn':
+                # the caller's floating-point error state decides: 'ignore' never warns, 'raise' always raises
+                if ambient == 'ignore':
+                    chk('warning-statement/ambient-ignore-respected', r['exc'] is None, {'raised': r['exc']})
+                else:
+                    chk('warning-statement/ambient-raise-respected', r['exc'] == 'FloatingPointError', {'raised': r['exc']})
+                continue
             if r.get('act') in ('npwarn', 'pywarn'):
                 raised_warning = r['exc'] in ('RuntimeWarning', 'UserWarning', 'FutureWarning', 'DeprecationWarning')
                 P('warning-statement:' + ('strict' if strict else 'lenient'))
